@@ -181,6 +181,32 @@ func c10Crash(c *core.Ctx, dir string, sc c10Scenario, mo string, k int, pt stri
 	if bad {
 		return
 	}
+	// before anybody cleans up, a user runs csvq again: a session that tries to update each table (matching no
+	// record) either gets through or times out on a leftover lock; either way it must leave the directory as it is
+	for _, n := range names {
+		if strings.Contains(n, "/") {
+			continue
+		}
+		tbl := strings.TrimSuffix(n, filepath.Ext(n))
+		procx.Exec(procx.Run{Dir: dir, Args: []string{"--wait-timeout", "0.05", "UPDATE " + tbl + " SET a = a WHERE 1 = 0"}})
+	}
+	if again := drv.DirSnapshot(dir); drv.SnapshotKey(again) != drv.SnapshotKey(snap) {
+		diff := ""
+		for n, b := range snap {
+			if nb, ok := again[n]; !ok {
+				diff += " " + n + " is gone;"
+			} else if nb != b {
+				diff += " " + n + " changed;"
+			}
+		}
+		for n := range again {
+			if _, ok := snap[n]; !ok {
+				diff += " " + n + " appeared;"
+			}
+		}
+		c.Violate("later-session-before-cleanup-changes-the-directory:killed-before "+pt, fmt.Sprintf("scenario %s, killed before %s %d %s: a later csvq session (UPDATE matching no record, --wait-timeout 0.05) changed the directory:%s", sc.Name, unit, k, pt, diff), payload)
+		return
+	}
 	// the manual's recovery: delete the hidden control files, then the tables are usable again
 	for n := range snap {
 		if isControl(n) {
